@@ -295,6 +295,7 @@ def check_graph(spec: dict, orders: list[list[int]], tag: str) -> tuple[list[dic
                 if point == "get_args":
                     exp = expect_vals.at(None, 0.0, readouts=False)
                     bad = {k: (v, exp.get(k)) for k, v in payload.items() if k in exp and not core.close(v, exp[k])}
+                    bad |= {k: ("absent from the argument table", exp[k]) for k in exp if k not in payload}
                 elif point == "get_initial_conditions":
                     exp = expect_vals.initial_conditions()
                     bad = {k: (v, exp.get(k)) for k, v in payload.items() if not core.close(v, exp.get(k, float("nan")))}
@@ -302,6 +303,7 @@ def check_graph(spec: dict, orders: list[list[int]], tag: str) -> tuple[list[dic
                     st_ = {v: 2.25 + 0.5 * i for i, v in enumerate(sorted(expect_vals.variables))}
                     exp = expect_vals.at(st_, AWAY_T, readouts=False)
                     bad = {k: (v, exp.get(k)) for k, v in payload.items() if k in exp and k != "time" and not core.close(v, exp[k])}
+                    bad |= {k: ("absent from the argument table", exp[k]) for k in exp if k not in payload}
                 elif point == "get_right_hand_side_at_state":
                     st_ = {v: 2.25 + 0.5 * i for i, v in enumerate(sorted(expect_vals.variables))}
                     exp = expect_vals.rhs(st_, AWAY_T)
